@@ -9,6 +9,8 @@ fn main() {
     let ui_dir = "ui";
     println!("cargo:rerun-if-changed={}", ui_dir);
     println!("cargo:rerun-if-changed=build.rs");
+    // verification hooks are guarded by this cfg; declaring it keeps the unexpected_cfgs lint quiet
+    println!("cargo:rustc-check-cfg=cfg(redproxy_verif)");
     gen_embedded_ui(ui_dir);
 }
 
